@@ -41,8 +41,14 @@ CLAIMS['C12'] = ('Component-level bounded model checking of the storage/memory-m
                  'memory managers and each storage option stores two nodes, releases one, stores a third into the recycled memory (padding recorded in the node tail) '
                  'and reads both back exactly (children symbolic). Together with C18 (managers) and C06 (deletion policies in node_headers). Policy independence of whole '
                  'operation histories is not covered (whole-library level).', 'DESIGN.md 11.2 C12')
+CLAIMS['C04'] = ('Bounded model checking of the terminal cases and short cuts of union, intersection, difference and complement (real operations/union.cc, intersection.cc, '
+                 'difference.cc, complement.cc: the real constructors, which derive the by-levels / identity-pattern flags, and the part of _compute before the recursion) for '
+                 'every combination of reduction rules of operand and result forests (sets: fully, quasi; relations: fully, quasi, identity), same or distinct forests, operands '
+                 '0 / true / non-terminal, every level L in [-3,3] and incoming index: the answer denotes the pointwise OR / AND / AND-NOT / NOT under the rules\' meaning of '
+                 'skipped levels (constant vs identity pattern). COPY, redundant/identity chain building and the operation registries are stand-ins; the recursion over nodes, '
+                 'compute-table use, cross product and operand immutability are not covered (whole-library level).', 'DESIGN.md 11.2 C04')
 for p, why in [
-    ('C03', 'construction from minterms and evaluation'), ('C04', 'set operations over forests'), ('C07', 'compute tables inside operations; a component harness (harness/c07_ct.cc: real ct_styles.cc table with 8 buckets via hook H4, real node headers, 3 symbolic steps) was built and measured: '
+    ('C03', 'construction from minterms and evaluation'), ('C07', 'compute tables inside operations; a component harness (harness/c07_ct.cc: real ct_styles.cc table with 8 buckets via hook H4, real node headers, 3 symbolic steps) was built and measured: '
             'symbolic execution alone did not finish in 50 min / ran out of 20 GB, because of std::vector growth, entry deletion and handle recycling loops over symbolic table state'),
     ('C08', 'reachability fixed points'), ('C09', 'image operations over relation nodes'), ('C11', 'iterators and cardinality over real forests'),
     ('C13', 'variable reordering of real forests'), ('C15', 'index-set conversion and lookup over real forests'),
